@@ -50,6 +50,12 @@ T = {
  "C17": ("TLC model of point triples under exact lattice rigid motions (Gen_Frame3: actions ChooseRot, ChooseShift; invariant Rigid) replayed into Frame::frame with perturbation families + trace validation of forward_transformed (Trace_Frame)",
          "For every triple x motion TLC prints the exact images and the generating motion; the constructed frame must equal it and map every point to its image; collinear / coincident sources, exactly collinear targets, +3 mm / +8 mm congruence perturbations and mirrored targets must give the stated outcome; forward_transformed is judged by the trace spec from oracle facts.",
          "Tolerance 1e-9 (1e-6 for the nearly collinear triple).", "4/C17"),
+ "C10": ("TLC model checking of all schedules of the parallel task evaluation (MC_Collision) + TLC-generated safety configurations with the pair sets that must be evaluated, compared with hook-H3 task lists (Gen_Collision) + trace validation of verdicts from brute-force distances (Trace_Collision)",
+         "The verdict class is shown schedule independent on the model; the enumerated task pairs of collision_details / collides / near are compared with Collision!MustCheck for every tool/base/environment/table configuration; on constructive scenes every report (all / first / nocheck mode, rayon pools 1..16) is judged by TLC's Expected set computed from the logged distance of every body pair.",
+         "Brute force uses parry's distance/intersection on the placed meshes; distances within 60 um of the threshold are don't-care; real rayon schedules are sampled (pools x repeats).", "4/C10"),
+ "C14": ("hook-H3 task lists of the 12 candidates against Collision!MustCheck (pairs with a moved member) for TLC-generated configurations + trace validation of offered offsets (Trace_Collision!JudgeOffsets)",
+         "For every configuration and every moved joint the enumerated pairs must cover all non-exempt pairs with a moved member; on scenes laid out to collide at one candidate, TLC recomputes limit compliance and demands offered = legal and free by the full check, under several rayon pools.",
+         "The reference for 'free' is the library's own full collides() as the statement says; its correctness is C10's subject.", "4/C14"),
 }
 
 REASON_TODO = "check not built yet in this round (planned, see DESIGN.md section 9); not claimed until it runs"
